@@ -93,14 +93,83 @@ Print Assumptions C01_integrity_first.
 
 (* no choice of level, override, trust store, identities, revocation or plugin
    turns a tampered envelope, a signature for another artifact or a missing
-   metadata pair into a success: only the level literally named "skip" does *)
+   metadata pair into a success: only the level literally named "skip", without
+   override, does *)
 Theorem C01_no_configuration_helps : forall i lvl ov rest touch,
   ~ (Intact (i_env i) /\
      exists t, e_decode (i_env i) = Some t /\ Bound (i_call i) (i_env i) t /\ MdPresent (i_md i) t) ->
   o_err (model (reconfig i lvl ov rest touch)) = ENone ->
-  lvl = "skip".
-Proof. exact no_configuration_helps. Qed.
+  lvl = "skip" /\ ov = [].
+Proof. exact no_configuration_helps_strong. Qed.
 Print Assumptions C01_no_configuration_helps.
+
+(* the three named ways of being wrong, one by one: whatever the level (other than
+   skip), the override, and the outcome of trust store / identity / expiry /
+   timestamp / revocation / plugin checks (rest, touch) *)
+
+(* a tampered envelope: unparsable, signature not valid over payload and signed
+   attributes under the key of its leaf certificate, or not a Notary payload *)
+Theorem C01_tampered_rejected : forall i lvl ov rest touch, lvl <> "skip" ->
+  (e_parse (i_env i) = false \/ e_verify (i_env i) <> VOk \/ e_ctype (i_env i) <> media_type_payload_v1) ->
+  o_err (model (reconfig i lvl ov rest touch)) <> ENone.
+Proof. exact tampered_rejected. Qed.
+Print Assumptions C01_tampered_rejected.
+
+(* a signature made for a different artifact: the signed target t is not the
+   artifact presented in the call (OCI: digest, size or media type differ; blob:
+   digest under the signature's algorithm or size differ, or the stated media type) *)
+Theorem C01_other_artifact_rejected : forall i lvl ov rest touch t, lvl <> "skip" ->
+  e_decode (i_env i) = Some t -> ~ Bound (i_call i) (i_env i) t ->
+  o_err (model (reconfig i lvl ov rest touch)) <> ENone.
+Proof. exact other_artifact_rejected. Qed.
+Print Assumptions C01_other_artifact_rejected.
+
+(* a required metadata pair that is not a signed annotation (absent key or other value) *)
+Theorem C01_missing_metadata_rejected : forall i lvl ov rest touch k v, lvl <> "skip" ->
+  In (k, v) (i_md i) ->
+  (forall t, e_decode (i_env i) = Some t -> lookup k (t_ann t) <> Some v) ->
+  o_err (model (reconfig i lvl ov rest touch)) <> ENone.
+Proof. exact missing_metadata_rejected. Qed.
+Print Assumptions C01_missing_metadata_rejected.
+
+(* every success, without any hypothesis on the statement: it is the skip level
+   (named "skip", no override), or the statement is legal, not skip, and the
+   envelope is accepted on its merits *)
+Theorem C01_success_cases : forall i, o_err (model i) = ENone ->
+  (i_level i = "skip" /\ i_override i = []) \/
+  (NonSkip (i_level i) (i_override i) /\
+   Intact (i_env i) /\ i_rest i = true /\ args_ok (i_call i) (i_md i) = true /\
+   exists t, e_decode (i_env i) = Some t /\ Bound (i_call i) (i_env i) t /\ MdPresent (i_md i) t).
+Proof. exact success_cases. Qed.
+Print Assumptions C01_success_cases.
+
+(* a statement that is not legal (unknown level, override of integrity, skip of
+   anything but revocation, override on skip) yields no verifier at all *)
+Theorem C01_illegal_statement : forall i, get_level (i_level i) (i_override i) = None ->
+  model i = mk_o EPolicy None "" None false.
+Proof. exact illegal_statement. Qed.
+Print Assumptions C01_illegal_statement.
+
+(* the skip level claims nothing: nothing is consulted, there is no integrity
+   result, no envelope content is exposed, notation.VerifyBlob returns the zero descriptor *)
+Theorem C01_skip_verifies_nothing : forall i, i_level i = "skip" -> i_override i = [] ->
+  o_touched (model i) = false /\ o_iact (model i) = "" /\
+  (forall e c, o_out (model i) = Some (e, c) -> e = ENone /\ c = 0%N) /\
+  (forall t, o_desc (model i) = Some t -> t = zero_target).
+Proof. exact skip_verifies_nothing. Qed.
+Print Assumptions C01_skip_verifies_nothing.
+
+(* notation.VerifyBlob: the error that is returned when both post-checks are reached *)
+Theorem C01_error_sticks_blob_content : forall i b t a ann, i_call i = CTop b -> NonSkip (i_level i) (i_override i) ->
+  args_ok (CTop b) (i_md i) = true -> b_read_ok b = true -> add_user_metadata [] (i_md i) = Some ann ->
+  Intact (i_env i) -> i_rest i = true -> e_decode (i_env i) = Some t ->
+  alg_of (e_hash (i_env i)) = Some a ->
+  o_err (model i) =
+    (if md_ok t (i_md i)
+     then (if blob_mismatch (mk_t (b_mt b) (digest_of b a) (b_size b) ann) t then EMismatch else ENone)
+     else EMetadata).
+Proof. exact top_mismatch_sticks. Qed.
+Print Assumptions C01_error_sticks_blob_content.
 
 (* in every legal level other than skip (the generated level table of
    trustpolicy.go plus any legal override) integrity is enforced *)
@@ -163,3 +232,52 @@ Example C01_example_tampered :
              true true [] (COCI ex_desc) in
   NonSkip (i_level i) (i_override i) /\ model i = mk_o (EIntegrity ISig) (Some (EIntegrity ISig, 0%N)) "enforce" None false.
 Proof. split; [eexists; split; reflexivity | reflexivity]. Qed.
+
+(* verifier.VerifyBlob accepts: sha384 signature, the generator's sha384 descriptor
+   matches, no media type stated, one pair required and present *)
+Example C01_example_blob_accept :
+  let d := Some (mk_t "" "sha256:aa" 528 []) in
+  let bad := Some (mk_t "" "sha256:bb" 528 []) in
+  let i := mk_in "audit" [] ex_env true true [("k2", "v2")] (CBlob (mk_g bad d bad)) in
+  NonSkip (i_level i) (i_override i) /\ o_err (model i) = ENone.
+Proof. split; [eexists; split; reflexivity | reflexivity]. Qed.
+
+Definition ex_blob : blobin :=
+  mk_b false "application/vnd.oci.image.manifest.v1+json" true media_type_cose true 528 "sha256:zz" "sha256:aa" "sha512:zz".
+
+(* notation.VerifyBlob accepts and returns the signed target; the same blob with a
+   reserved metadata key, a failing reader or another content type is refused *)
+Example C01_example_blob_content_accept :
+  let i := mk_in "strict" [] ex_env true true [("k1", "v1")] (CTop ex_blob) in
+  NonSkip (i_level i) (i_override i) /\ args_ok (i_call i) (i_md i) = true /\
+  o_err (model i) = ENone /\ o_desc (model i) = Some ex_target.
+Proof. split; [eexists; split; reflexivity | repeat split; reflexivity]. Qed.
+
+Example C01_example_blob_content_mediatype :
+  let b := mk_b false "text/plain" true media_type_cose true 528 "sha256:zz" "sha256:aa" "sha512:zz" in
+  let i := mk_in "strict" [] ex_env true true [("k1", "v1")] (CTop b) in
+  NonSkip (i_level i) (i_override i) /\ o_err (model i) = EMismatch.
+Proof. split; [eexists; split; reflexivity | reflexivity]. Qed.
+
+(* a required pair with an empty value is not satisfied by an absent key, nor by another value *)
+Example C01_example_missing_metadata :
+  let i := mk_in "audit" [("revocation", "skip")] ex_env true true [("k1", "v1"); ("k3", "")] (COCI ex_desc) in
+  NonSkip (i_level i) (i_override i) /\ o_err (model i) = EMetadata /\
+  In ("k3", "") (i_md i) /\ (forall t, e_decode (i_env i) = Some t -> lookup "k3" (t_ann t) <> Some "").
+Proof.
+  split; [eexists; split; reflexivity|]. split; [reflexivity|]. split; [right; left; reflexivity|].
+  intros t H. inversion H; subst. discriminate.
+Qed.
+
+(* the premises of C01_no_configuration_helps are satisfiable: the tampered envelope IS let
+   through by the skip level — with no envelope content exposed *)
+Example C01_example_skip :
+  let i := mk_in "strict" [] (mk_e true VSig media_type_payload_v1 (Some ex_target) H256) true true [] (COCI ex_desc) in
+  ~ Intact (i_env i) /\ model (reconfig i "skip" [] false false) = mk_o ENone (Some (ENone, 0%N)) "" None false.
+Proof. split; [intros [_ [C _]]; discriminate | reflexivity]. Qed.
+
+(* statements that are not legal *)
+Example C01_example_illegal :
+  get_level "strict" [("integrity", "log")] = None /\ get_level "skip" [("revocation", "log")] = None /\
+  get_level "audit" [("expiry", "skip")] = None /\ get_level "lenient" [] = None.
+Proof. repeat split; reflexivity. Qed.
